@@ -20,9 +20,21 @@ package utils
 import (
 	"fmt"
 	"os"
+	"strings"
 
 	log "github.com/sirupsen/logrus"
 )
+
+// IsSimpleFileName returns true if name can be used as the name of a single
+// file inside a directory: it is not empty, is not "." or "..", and has no
+// path separator. Names coming from a request must pass this check before
+// they are joined to a directory.
+func IsSimpleFileName(name string) bool {
+	if name == "" || name == "." || name == ".." {
+		return false
+	}
+	return !strings.ContainsAny(name, "/\\")
+}
 
 type WriteMode int
 
